@@ -74,6 +74,16 @@ CHECKS = {
   text="Structural necessary conditions only (the verdict for every statement of the grammar is NOT decided): every classifier function returns false with an error and returns false once any element on the path was classified non-idempotent; now()/uuid() unqualified or in keyspace system is never idempotent and the table contains both; additive update operations are idempotent only for set/map/udt and tuple literals and delete-by-element rules hold for every term type; INSERT/UPDATE/DELETE look for IF up to the terminator and return false when seen; every parser loop consumes a token per iteration and exits at end of input; no panic site is reachable from the entry points; rewind() restores everything next() writes; identifiers are compared with CQL case/quote rules.",
   note="Trusted: the ragel-generated scanner function. Not covered: soundness of the verdict over all CQL statements, lexer invariance under whitespace/terminators (inputs quantifier: out of reach of this technique).",
   ref="DESIGN.md §4 C06"),
+ "C17": dict(
+  technique="static analysis: call-graph reachability from the network-facing entry points + panic-site inventory with a bound/typed-container guard analysis and a frozen reasoned table; nil-result/nil-store rules; channel-send discipline; error-flow ownership",
+  text="Every instruction that can panic or exit (explicit panic, unchecked type assertion, index/slice without established bound, integer division by a variable, Fatal/os.Exit) in the 211 repo functions reachable from the entry points for client frames, backend frames/events, connection loss and topology events is either discharged by the guard analysis (dominating length tests, range indices, typed sync.Map/atomic.Value containers, sort.Slice callbacks) or one of 22 reviewed sites with a reason; (nil, nil)-returning functions are nil-tested by callers; only successfully created pools are stored; a receiver error closes only its own connection and decode errors are returned; every channel send is non-blocking, has a closed/done alternative, or is reasoned; the retry loop cannot spin.",
+  note="Trusted: library decoders, the generated scanner. Not covered: memory exhaustion, liveness in general, fuzzing-style input coverage (inputs quantifier); a frozen-table site whose guard is later removed is not re-derived.",
+  ref="DESIGN.md §4 C17"),
+ "C20": dict(
+  technique="static analysis: constant folding of the name->value functions over every label in the source (table extraction), property simulation of Run() with option values bound around their validity boundaries, report-then-stop effect rule, ordering rule (validate after merge), error-chain simulation",
+  text="Every label of parseProtocolVersion and clWrapper.UnmarshalText is folded: documented spellings select the constant they name, distinct names distinct values, labels are lower case under a lower-cased input, unknown names are refused (exhaustive over the finite label sets). Run() is simulated for 36 boundary cells (heartbeat vs idle, connection count, all version x max-version pairs, unknown names): exactly the inconsistent ones are refused before a proxy is built; after any reported configuration error no path builds/starts the proxy and the exit status is non-zero; options are tested only after the configuration file was merged; buildNodes refuses the three invalid peer configurations and its error reaches the exit status.",
+  note="Trusted: kong and yaml parsing. Not covered: option values other than the folded cells, environment handling.",
+  ref="DESIGN.md §4 C20"),
 }
 
 NOT_YET = "check not built yet in this round (see DESIGN.md §4 for the planned structural rules)"
